@@ -30,13 +30,14 @@ std::vector<uint8_t> WriteBuffer::vec() const {
 void WriteBuffer::write(const uint8_t *s, size_t n)
 {
     need(n);
-    std::copy(s, s + n, &data_[pos_]);
+    if (n == 0) return;
+    std::copy(s, s + n, data_.data() + pos_);
     pos_ += n;
 }
 
 uint8_t* WriteBuffer::bytes_to_write(size_t n) {
     need(n);
-    uint8_t* ret = &data_[pos_];
+    uint8_t* ret = data_.data() + pos_;
     pos_ += n;
     return ret;
 }
